@@ -193,7 +193,8 @@ def check(tier):
               'be.ssn.validate() does not return what bis.validate()/nn.validate() return')
     # es.nif: every branch ends in a constituent check, final else is cif
     v = fn_of('stdnum.es.nif', 'validate')
-    top = [s for s in strip_doc(v.body) if isinstance(s, ast.If) and 'number[0]' in src(s.test)]
+    from ..match import resolve_locals
+    top = [s for s in strip_doc(v.body) if isinstance(s, ast.If) and 'number[0]' in src(resolve_locals(v, s.test))]
     ok = False
     if top:
         node = top[-1]
